@@ -247,6 +247,22 @@ def common_summaries():
                 return [(st, ListIter(tgt.items, True))]
         return [(st, argv[0])]
 
+    @reg(r'^<(std::ops::)?Range<(usize|u64|u32|u16|u8)> as Iterator>::next$')
+    def range_next(ex, st, fn, argv):
+        r = argv[0]
+        rng = ex.read_path(st, r.cell, r.path)
+        lo, hi = rng.fields[0], rng.fields[1]
+        outs = []
+        for (s, c, more) in ex.fork_on(st, z3.ULT(lo.bv, hi.bv), (r, lo)):
+            if more:
+                rr, l0 = c
+                cur = ex.read_path(s, rr.cell, rr.path)
+                cur.fields[0] = Int(l0.bv + 1, l0.width, False)
+                outs.append((s, mk_option(Int(l0.bv, l0.width, False))))
+            else:
+                outs.append((s, mk_option()))
+        return outs
+
     # ---------------- Vec<T> (T != u8): concrete-length lists
     @reg(r'^Vec::<(?!u8>).*>::(new|with_capacity)$|^<Vec<(?!u8>).*> as Default>::default$')
     def list_new(ex, st, fn, argv):
